@@ -286,6 +286,46 @@ def load_check(prop):
     return importlib.import_module(f"pvmon.checks.{prop.lower()}")
 
 
+def _raised_in_repo(exc):
+    """Name of the repository function an exception escaped from, when the innermost frame that belongs to either the
+    harness or the repository is a repository frame (the real code raised on an input the check considered valid);
+    None when the innermost such frame is harness code (a harness bug: stays an inconclusive crash)."""
+    src = os.path.realpath(os.path.join(bootstrap.repo_dir(), "src")) + os.sep
+    here = os.path.dirname(os.path.realpath(__file__)) + os.sep
+    where = None
+    tb = exc.__traceback__
+    while tb is not None:
+        fn = os.path.realpath(tb.tb_frame.f_code.co_filename)
+        if fn.startswith(src):
+            where = tb.tb_frame.f_code.co_name
+        elif fn.startswith(here):
+            where = None
+        tb = tb.tb_next
+    return where
+
+
+def _guard_check_case(mod):
+    """Every property is stated for all inputs of its domain, so the repository raising on a generated (valid) input
+    is an observation, not a crash of the harness: record it as a failing oracle evaluation keyed by exception type
+    and raising function, and carry on with the next case."""
+    orig = mod.check_case
+    if getattr(orig, "_pvmon_guarded", False):
+        return
+
+    def check_case(ctx, case, *args, **kwargs):
+        try:
+            return orig(ctx, case, *args, **kwargs)
+        except Exception as e:
+            where = _raised_in_repo(e)
+            if where is None:
+                raise
+            ctx.check("repository_call_completes", False, case, key=f"raises/{type(e).__name__}@{where}",
+                      exc=f"{type(e).__name__}: {str(e)[:200]}")
+
+    check_case._pvmon_guarded = True
+    mod.check_case = check_case
+
+
 def worker_main(argv):
     """Entry of one shard subprocess: python -m pvmon.harness <prop> <tier> <seed> <shard> <n> <specjson> <out>"""
     prop, tier, seed, shard, nshards, specjson, out = argv[:7]
@@ -301,6 +341,7 @@ def worker_main(argv):
     res = None
     try:
         mod = load_check(prop)
+        _guard_check_case(mod)
         if replay:
             with open(replay) as f:
                 rec = json.load(f)
